@@ -12,6 +12,12 @@ def scenarios(tier):
   out.append(('thrift pooled connection reused, 3 calls, short timeouts',
               {'stack': 'thrift', 'endpoints': 1, 'ops': [('call', 'p0', 0.1025), ('call', 'p1', 0.2025), ('call', 'p2')],
                'pool': {'max_watermark': 1, 'max_queue_len': 2}, 'faults': FAULTS, 'timeout': 0.5025}))
+  out.append(('thrift pooled connection reused, partial writes under back-pressure',
+              {'stack': 'thrift', 'endpoints': 1, 'ops': [('call', 'w0', 0.1025), ('call', 'w1'), ('call', 'w2')],
+               'pool': {'max_watermark': 1, 'max_queue_len': 2}, 'faults': ['block-partial', 'drop'], 'timeout': 0.5025}))
+  out.append(('mux partial writes under back-pressure',
+              {'stack': 'mux', 'endpoints': 1, 'ops': [('call', 'v0', 0.1025), ('call', 'v1'), ('call', 'v2')],
+               'faults': ['block-partial', 'drop'], 'timeout': 0.5025}))
   out.append(('thrift 2 endpoints, 3 concurrent calls',
               {'stack': 'thrift', 'endpoints': 2, 'ops': [('call', 'q0', 0.1025), ('call', 'q1'), ('call', 'q2', 0.2025)], 'open_timeout': 0,
                'faults': FAULTS, 'timeout': 0.5025}))
